@@ -222,3 +222,38 @@ macro_rules! deserialize_route {
 deserialize_route!(c10_member_deser3, MemberName<'_>, m::member_name);
 deserialize_route!(c10_unique_deser3, UniqueName<'_>, m::unique_name);
 deserialize_route!(c10_objpath_deser3, ObjectPath<'_>, m::object_path);
+
+/// The one non-colon string a unique name may be: exactly "org.freedesktop.DBus". Every string made of that text
+/// plus 0..=2 arbitrary ASCII bytes is classified against the spec recogniser.
+macro_rules! dbus_suffix {
+    ($h:ident, $ty:ty, $model:path) => {
+        #[kani::proof]
+        #[kani::unwind(26)]
+        #[kani::stub(alloc::fmt::format, no_format)]
+        fn $h() {
+            let mut buf = [0u8; 22];
+            let lit = b"org.freedesktop.DBus";
+            let mut i = 0;
+            while i < 20 {
+                buf[i] = lit[i];
+                i += 1;
+            }
+            let x: [u8; 2] = kani::any();
+            kani::assume(x[0] < 0x80 && x[1] < 0x80);
+            buf[20] = x[0];
+            buf[21] = x[1];
+            let len: usize = kani::any();
+            kani::assume(len >= 20 && len <= 22);
+            let bytes = &buf[..len];
+            let s = unsafe { core::str::from_utf8_unchecked(bytes) };
+            let r = <$ty>::try_from(s);
+            let real = r.is_ok();
+            core::mem::forget(r);
+            let model = $model(bytes);
+            kani::cover!(real, "accepted");
+            kani::cover!(!real, "rejected");
+            assert!(real == model, "acceptance differs from the spec grammar");
+        }
+    };
+}
+dbus_suffix!(c10_unique_dbus_suffix, UniqueName<'_>, m::unique_name);
